@@ -624,6 +624,35 @@ theorem has_relationship_direct_target (rows : List RowX) (fuel : Nat) (hf : fue
   rw [← hns] at hi
   exact ⟨inh, hi, hasRelationship_direct fuel lf (makeX rows) recs rel term g s hid rd hg htr inh hi⟩
 
+
+/-! OBSERVATION (not a property of the list; DESIGN 9.6): the walk of a TRANSITIVE relationship follows the first tag
+whose Ref it can resolve and never returns to the other tags of the record it left - so a direct match on a later
+tag is lost.  `s = {aRef:@a, bRef:@t, id:@s}`, `a = {id:@a}`, both ref tags declare `containedBy` (transitive):
+`containedBy? @t` is false on `s` although `bRef` holds `@t` itself; without `aRef` (record `s2`) it is true; and with
+the relationship NOT transitive it is true on `s` (`has_relationship_direct_target`).  The real code answers the same
+(case `rel:first_tag_wins` of every run). -/
+section
+open Hs.NsA
+def ftwRows (transitive : Bool) : List RowX :=
+  [ { name := some nRelationship, tags := [] },
+    { name := some ['x'], tags := [] },
+    { name := some ['c','B'], tags := (nIs, .list [some nRelationship]) :: (if transitive then [(nTransitive, .marker)] else []) },
+    { name := some ['a','R'], tags := [(['c','B'], .sym ['x'])] },
+    { name := some ['b','R'], tags := [(['c','B'], .sym ['x'])] } ]
+def ftwRecs : List RecX :=
+  [ { key := some ['s'], id := some ['s'],
+      tags := [{ key := ['a','R'], ref := some ['a'] }, { key := ['b','R'], ref := some ['t'] }, { key := ['i','d'], ref := some ['s'] }] },
+    { key := some ['a'], id := some ['a'], tags := [{ key := ['i','d'], ref := some ['a'] }] },
+    { key := some ['s','2'], id := some ['s','2'],
+      tags := [{ key := ['b','R'], ref := some ['t'] }, { key := ['i','d'], ref := some ['s','2'] }] } ]
+
+example :
+    NsA.hasRelationship 6 4 (makeX (ftwRows true)) ftwRecs ['c','B'] none (some ['t']) ftwRecs[0]! = .ok false ∧
+    NsA.hasRelationship 6 4 (makeX (ftwRows true)) ftwRecs ['c','B'] none (some ['t']) ftwRecs[2]! = .ok true ∧
+    NsA.hasRelationship 6 4 (makeX (ftwRows false)) ftwRecs ['c','B'] none (some ['t']) ftwRecs[0]! = .ok true := by
+  decide +kernel
+end
+
 /-! Non-vacuity (part 2): a miniature of the standard library.  `tagOn` is a plain association, `tags` is computed
 from it; `ahu is [equip]`; `foo tagOn [equip]`, `bar tagOn [ahu, nowhere]`; `equip` is mandatory; `ahu-foo` is a
 conjunct; `containedBy` is a transitive relationship. -/
